@@ -57,6 +57,15 @@ def construction_closure(ctx: Ctx) -> set[str]:
             if t.kind == "repo":
                 for g in t.targets:
                     callers.setdefault(g.fullname, set()).add(top.fullname)
+        # a method taken as a value (relax = self._relax_abstract if .. else self._relax_concrete; relax(..)) is called by whoever took it
+        if f.cls is not None:
+            from ..astutil import is_self_attr as _isa
+            from ..frontend import parent as _parent
+            for x in walk_local(f.node, include_nested=True):
+                if isinstance(x, ast.Attribute) and _isa(x) and isinstance(x.ctx, ast.Load) and not (isinstance(_parent(x), ast.Call) and _parent(x).func is x):
+                    g = prog.lookup_method(f.cls, x.attr)
+                    if g is not None:
+                        callers.setdefault(g.fullname, set()).add(top.fullname)
     closure = set(CONSTRUCTION)
     changed = True
     while changed:
